@@ -84,3 +84,10 @@ TEXT["C07"] = {
     "note": "trusts the hook (src/bit_machine: verif_stats / verif_take_frame_oob) and the u128 bound re-computation in harness/src/c07.rs",
     "technique": "invariant hook (high-water marks, frame-bounds counter) + allocation monitor over nesting-biased programs and limit bombs, two build profiles",
 }
+TEXT["C12"] = {
+    "level": ("Every public route for attaching witnesses is driven with right- and wrong-typed candidates of seven kinds on executed and unexecuted branches; whatever the API returns is inspected "
+              "(types, own serialisation, execution under the frame-bounds hook, pruning). Decides the property for each explored (program, assignment, route)."),
+    "design_ref": "DESIGN.md section 5, C12",
+    "note": "trusts the harness value model and the hook counters",
+    "technique": "API-boundary monitor with wrong-type witness injection + frame-bounds hook",
+}
